@@ -339,6 +339,11 @@ func classify(p cfgPath, v interface{}, ids map[string][]string) (f field, ok bo
 			f.Kind = "duration"
 			f.Values = []mutValue{{Class: "0", Value: "0s"}, {Class: "-1", Value: "-1s"}, {Class: "1", Value: "1ns"},
 				{Class: "large", Value: largeDuration}, {Class: "max", Value: maxDuration}, missing}
+			if g == "check.kv.ttl" {
+				// documented: consul 10s..1d, redis >= 1ms, backend > 0.
+				f.Values = append(f.Values, mutValue{Class: "consul-min", Value: "10s"}, mutValue{Class: "consul-min-1", Value: "9999ms"},
+					mutValue{Class: "consul-max", Value: "24h"}, mutValue{Class: "consul-max+1", Value: "24h0m0.001s"})
+			}
 			if g == "dns.tcp_idle_timeout" {
 				// dnsserver.MaxTCPIdleTimeout = 65535 * 100ms (RFC 7828).
 				f.Values = append(f.Values, mutValue{Class: "bound", Value: "6553500ms"}, mutValue{Class: "bound+1", Value: "6553501ms"})
@@ -442,4 +447,73 @@ func atoiDefault(s string, d int) int {
 		return n
 	}
 	return d
+}
+
+// constraintPairs are the documented cross-field constraints
+// (doc/configuration.md) whose value combinations are enumerated completely:
+// cache type vs sizes, stop vs resume, KV type vs TTL bounds, DDR ports.
+var constraintPairs = [][2]string{
+	{"cache.type", "cache.ecs_size"},
+	{"cache.type", "cache.size"},
+	{"ratelimit.connection_limit.stop", "ratelimit.connection_limit.resume"},
+	{"check.kv.type", "check.kv.ttl"},
+	{"server_groups[*].ddr.public_records[*].https_port", "server_groups[*].ddr.public_records[*].tls_port"},
+	{"server_groups[*].ddr.public_records[*].https_port", "server_groups[*].ddr.public_records[*].quic_port"},
+}
+
+func sameParent(a, b cfgPath) bool {
+	if len(a) != len(b) {
+		return false
+	}
+	for i := 0; i < len(a)-1; i++ {
+		if a[i] != b[i] {
+			return false
+		}
+	}
+	return true
+}
+
+// constraintCases enumerates the value combinations of the constraint pairs.
+// For an enum only its other documented values are used; ports are limited to
+// {0, 1, bound}.
+func constraintCases(fields []field) (out [][]mutation) {
+	pick := func(f field) []mutValue {
+		var vs []mutValue
+		for _, v := range f.Values {
+			switch {
+			case f.Kind == "enum":
+				for _, d := range enumDomain[f.Path.generic()] {
+					if !v.Missing && fmt.Sprint(d) == fmt.Sprint(v.Value) {
+						vs = append(vs, v)
+					}
+				}
+			case strings.HasSuffix(f.Path.lastKey(), "_port"):
+				if v.Class == "0" || v.Class == "1" || v.Class == "bound" {
+					vs = append(vs, v)
+				}
+			default:
+				vs = append(vs, v)
+			}
+		}
+		return vs
+	}
+	for _, cp := range constraintPairs {
+		for _, fa := range fields {
+			if fa.Path.generic() != cp[0] {
+				continue
+			}
+			for _, fb := range fields {
+				if fb.Path.generic() != cp[1] || !sameParent(fa.Path, fb.Path) {
+					continue
+				}
+				for _, va := range pick(fa) {
+					for _, vb := range pick(fb) {
+						out = append(out, []mutation{{Path: fa.Path, Kind: fa.Kind, Value: va}, {Path: fb.Path, Kind: fb.Kind, Value: vb}})
+					}
+				}
+			}
+			break
+		}
+	}
+	return out
 }
